@@ -550,6 +550,10 @@ def rule_items(ctx):
 
 
 def run(ctx):
+    from ..report import SubCtx
+    from . import c10
+    sub_c10 = SubCtx(ctx, 'C09.wake', 'a queue entry comes out once and a removed or re-added entry follows the queue: the consumers take one entry at a time and run it before the next, as decided for C10')
+    c10.rule_wake(sub_c10)
     rule_items(ctx)
     rule_inv(ctx)
     rule_key(ctx)
